@@ -1,4 +1,321 @@
-import Sigc.Basic
-/-! property theorems for C16 (stub, replaced by the real statements) -/
+import Sigc.TrkLemmas
+/-!
+  # C16 — trackable notifications fire exactly once, and copies do not inherit them
+
+  Model: `Sigc/Trk.lean` (`sigc::trackable`, `trackable_callback_list`, function by function).
+  All theorems quantify over **all** histories (`History` = callback bodies + any list of operations over
+  any number of trackables), by induction over the operation list; nothing is enumerated.
+
+  Vocabulary (defined in `Sigc/Trk.lean`, mechanism-free, to be read against `properties.jsonl`):
+  * the trace of a run is the list of events `add r t d` (registration `r` — a fresh id per call — of data
+    `d` on trackable `t`), `rem t d`, `trig t … done t` (one triggering event on `t`: destruction, being
+    assigned to, being moved from, `notify_callbacks()`), `deliver r d k`;
+  * `present t pre` — the registrations of `t` after the events `pre`: added to `t`, not matched by a
+    `remove` (a `remove d` matches the **first** present registration with data `d`), and no triggering
+    event on `t` has completed since;
+  * `inRound pre` — the trackable whose triggering event is in progress after `pre`;
+  * `h.Domain` — C16's domain: callbacks only *remove* registrations (no `add`, no nested
+    `notify_callbacks()` inside a delivery round; DESIGN §2/§5).
+-/
 namespace Sigc.C16
+open Sigc.Trk
+
+/-- a registration can only be present on the trackable it was added to -/
+theorem present_mem_add (t : Nat) (x : Nat × Nat) :
+    ∀ (tr : List Ev) (init : List (Nat × Nat)), x ∈ tr.foldl (stepP t) init →
+      x ∈ init ∨ Ev.add x.1 t x.2 ∈ tr := by
+  intro tr
+  induction tr with
+  | nil => intro init h; exact .inl h
+  | cons e tr ih =>
+    intro init h
+    rcases ih _ h with h1 | h1
+    · rcases mem_stepP h1 with h2 | ⟨d, he, hd⟩
+      · exact .inl h2
+      · subst he; subst hd; exact .inr (List.mem_cons_self ..)
+    · exact .inr (List.mem_cons_of_mem _ h1)
+
+/--
+  **C16.exactly_once.**  For every history in the domain, on the trace `tr` of the whole run:
+  1. every `add` has its own registration id;
+  2. no registration is delivered twice;
+  3. a delivery of `r` happens only *during a triggering event* on a trackable `t` on which `r` is
+     present at that moment — i.e. `r` was added to `t`, no `remove` matched it before (never after
+     removal), and no earlier triggering event on `t` has completed since the `add` (so it is the first);
+  4. when a triggering event on `t` completes, every registration present on `t` has been delivered
+     (so an unremoved registration *is* delivered at the first triggering event after its `add`),
+     and from then on `t` has no registration (`present t (pre ++ [done t]) = []` by definition);
+  5. triggering events are properly bracketed: a `trig` and an `add` only occur outside rounds, and at the
+     end of the history no round is open.
+-/
+theorem exactly_once (h : History) (dom : h.Domain = true) :
+    let tr := (run h).trace
+    (added tr).Nodup ∧
+    (delivered tr).Nodup ∧
+    (∀ pre post r d k, tr = pre ++ Ev.deliver r d k :: post →
+        r ∉ delivered pre ∧ ∃ t, inRound pre = some t ∧ (r, d) ∈ present t pre ∧ Ev.add r t d ∈ pre) ∧
+    (∀ pre post t, tr = pre ++ Ev.done t :: post →
+        inRound pre = some t ∧ ∀ x ∈ present t pre, x.1 ∈ delivered pre) ∧
+    (∀ pre post t, tr = pre ++ Ev.trig t :: post → inRound pre = none) ∧
+    (∀ pre post r t d, tr = pre ++ Ev.add r t d :: post → inRound pre = none ∧ r ∉ added pre) ∧
+    inRound tr = none := by
+  have inv := run_inv dom
+  refine ⟨inv.valid.added_nodup, inv.valid.delivered_nodup, ?_, ?_, ?_, ?_, inv.idle⟩
+  · intro pre post r d k e
+    obtain ⟨_, t, h1, h2, h3⟩ := inv.valid.split pre _ post e
+    refine ⟨h3, t, h1, h2, ?_⟩
+    rcases present_mem_add t (r, d) pre [] h2 with h4 | h4
+    · cases h4
+    · exact h4
+  · intro pre post t e
+    exact (inv.valid.split pre _ post e).2
+  · intro pre post t e
+    exact (inv.valid.split pre _ post e).2
+  · intro pre post r t d e
+    have := (inv.valid.split pre _ post e).2
+    exact ⟨this.2, this.1⟩
+
+/-- non-vacuity: three registrations on one trackable, one removed from outside, one removed by the first
+    callback during the round (never delivered), the first removing itself as well; then a second round -/
+def ex1 : History :=
+  { scripts := [[.rem 1, .rem 3], []],
+    ops := [.new 0, .add 0 1 0, .add 0 2 1, .add 0 3 1, .add 0 2 1, .rem 0 2, .notify 0, .notify 0, .del 0] }
+
+example : ex1.Domain = true ∧ delivered (run ex1).trace = [0, 3] ∧ added (run ex1).trace = [0, 1, 2, 3] :=
+  by decide
+
+/--
+  **C16.remove_during_round** (safety).  For every history in the domain the run never reaches an error
+  state: the callback list is never restructured under the destructor's iterator (`iterInvalid`), never
+  deleted twice (`doubleDelete`), and the iteration reaches `end()` (`fuel`).  This covers callbacks
+  removing any other registration of the trackable being notified, earlier or later in the list, already
+  delivered or not, and themselves.  The *effect* of such a removal is clause 3/4 of `exactly_once`
+  (`present` drops the first present registration with that data, whether or not a round is in progress).
+-/
+theorem remove_during_round (h : History) (dom : h.Domain = true) : (run h).err = none :=
+  (run_inv dom).noerr
+
+example : ex1.Domain = true ∧ (run ex1).err = none := by decide
+
+/-- the domain restriction "no nested `notify_callbacks()`" cannot be dropped from safety -/
+theorem nested_notify_witness :
+    ∃ h : History, (run h).err = some Err.doubleDelete :=
+  ⟨{ scripts := [[.notify]], ops := [.new 0, .add 0 1 0, .notify 0] }, by decide⟩
+
+/-- the domain restriction "no `add` inside a round" cannot be dropped from exactly-once: the call is
+    silently ignored, its registration is never delivered, not even when the trackable is destroyed -/
+theorem add_in_round_witness :
+    ∃ h : History, (run h).err = none ∧ 1 ∈ added (run h).trace ∧ 1 ∉ delivered (run h).trace ∧
+      (run h).objs 0 = none :=
+  ⟨{ scripts := [[.add 2 0]], ops := [.new 0, .add 0 1 0, .notify 0, .del 0] }, by decide⟩
+
+/--
+  **C16.copy_transfers_nothing.**  In *any* state, copy-constructing `dst` from a live `src` delivers
+  nothing, leaves `src` (and everything else) exactly as it was and gives `dst` no callback list.
+-/
+theorem copy_transfers_nothing (sc : Scripts) (s : State) (src dst : Nat)
+    (hok : (Op.copyCtor src dst).ok s = true) :
+    let s' := step sc (.copyCtor src dst) s
+    s'.trace = s.trace ∧ s'.err = s.err ∧ s'.nextReg = s.nextReg ∧
+      (s.err = none → s'.objs dst = some ⟨none⟩) ∧ (∀ t, t ≠ dst → s'.objs t = s.objs t) := by
+  simp only [step, hok, if_true, exec]
+  split
+  · exact ⟨rfl, rfl, rfl, fun h => by simp_all, fun _ _ => rfl⟩
+  · exact ⟨rfl, rfl, rfl, fun _ => by simp, fun t ht => upd_objs_other _ _ ht⟩
+
+/-- … and along every history: whatever is delivered during a triggering event on a trackable (e.g. the
+    copy's destruction) was registered **on that very trackable** — the copy's life never reaches the
+    original's registrations, and vice versa -/
+theorem copy_life_independent (h : History) (dom : h.Domain = true) :
+    ∀ pre post r d k, (run h).trace = pre ++ Ev.deliver r d k :: post →
+      ∃ t, inRound pre = some t ∧ Ev.add r t d ∈ pre := by
+  intro pre post r d k e
+  obtain ⟨_, t, h1, _, h3⟩ := (exactly_once h dom).2.2.1 pre post r d k e
+  exact ⟨t, h1, h3⟩
+
+/-- non-vacuity: the copy dies, the original's registration stays and is delivered when the original dies -/
+example :
+    let h : History := { scripts := [[]], ops := [.new 0, .add 0 7 0, .copyCtor 0 1, .del 1] }
+    h.Domain = true ∧ delivered (run h).trace = [] ∧
+      delivered (run { h with ops := h.ops ++ [.del 0] }).trace = [0] := by decide
+
+/--
+  **C16.self_assign_silent.**  In *any* state, copy- or move-assigning a trackable to itself changes
+  nothing at all (no delivery, no event, no state change).
+-/
+theorem self_assign_silent (sc : Scripts) (s : State) (t : Nat) :
+    step sc (.assign t t) s = s ∧ step sc (.moveAssign t t) s = s := by
+  constructor <;> (simp only [step, exec]; split <;> simp)
+
+example :
+    let h : History := { scripts := [[]], ops := [.new 0, .add 0 7 0, .assign 0 0, .moveAssign 0 0] }
+    (run h).trace = [.add 0 0 7] ∧ entriesOf (run h) 0 = [⟨7, some 0, 0⟩] := by decide
+
+/--
+  **C16.trigger_ops** (what each operation contributes to the trace; ties the events `trig … done` of
+  `exactly_once` to the operations of the property statement).  After any history in the domain, an
+  applicable operation `op` extends the trace by:
+  destruction / `notify_callbacks()` of `t`: one triggering event on `t`; copy assignment `dst = src`:
+  one on `dst` (nothing if `dst` is `src`); move construction from `src`: one on `src`; move assignment:
+  one on `dst`, then one on `src` (nothing if same); default and copy construction: nothing;
+  `add`: one `add` event with a fresh id; `remove`: one `rem` event.
+-/
+theorem trigger_ops (h : History) (dom : h.Domain = true) (op : Op) (hok : op.ok (run h) = true) :
+    let s := run h
+    let s' := step h.sc op s
+    match op with
+    | .notify t | .del t => ∃ mid, s'.trace = s.trace ++ Ev.trig t :: mid ++ [Ev.done t]
+    | .assign dst src =>
+        if dst = src then s'.trace = s.trace
+        else ∃ mid, s'.trace = s.trace ++ Ev.trig dst :: mid ++ [Ev.done dst]
+    | .moveCtor src _ => ∃ mid, s'.trace = s.trace ++ Ev.trig src :: mid ++ [Ev.done src]
+    | .moveAssign dst src =>
+        if dst = src then s'.trace = s.trace
+        else ∃ m1 m2, s'.trace =
+          s.trace ++ Ev.trig dst :: m1 ++ [Ev.done dst] ++ Ev.trig src :: m2 ++ [Ev.done src]
+    | .new _ | .copyCtor _ _ => s'.trace = s.trace
+    | .add t d _ => s'.trace = s.trace ++ [Ev.add s.nextReg t d]
+    | .rem t d => s'.trace = s.trace ++ [Ev.rem t d] := by
+  have inv := run_inv dom
+  have hsc := History.remOnly dom
+  simp only [step, inv.noerr, Option.isSome_none, Bool.false_eq_true, if_false, hok, if_true]
+  cases op with
+  | new t => rfl
+  | copyCtor src dst => rfl
+  | add t d k =>
+    simp only [Op.ok] at hok
+    obtain ⟨o, ho⟩ := alive_iff.1 hok
+    simp [exec, addDestroyNotify, ho, State.emit]
+  | rem t d =>
+    simp only [Op.ok] at hok
+    obtain ⟨o, ho⟩ := alive_iff.1 hok
+    simp [exec, removeDestroyNotify, ho]
+  | notify t =>
+    simp only [Op.ok] at hok
+    obtain ⟨o, ho⟩ := alive_iff.1 hok
+    exact (notify_shape hsc t inv ho).1
+  | del t =>
+    simp only [Op.ok] at hok
+    obtain ⟨o, ho⟩ := alive_iff.1 hok
+    have h1 := (notify_inv hsc t inv).1
+    simp only [exec, h1.noerr, Option.isSome_none, Bool.false_eq_true, if_false, upd_trace]
+    exact (notify_shape hsc t inv ho).1
+  | assign dst src =>
+    simp only [Op.ok, Bool.and_eq_true] at hok
+    obtain ⟨o, ho⟩ := alive_iff.1 hok.1
+    simp only [exec]
+    by_cases e : dst = src
+    · simp [e]
+    · simp only [e, if_false, ne_eq, not_false_eq_true, if_true]
+      exact (notify_shape hsc dst inv ho).1
+  | moveCtor src dst =>
+    simp only [Op.ok, Bool.and_eq_true, Bool.not_eq_true'] at hok
+    obtain ⟨o, ho⟩ := alive_iff.1 hok.1
+    have hd : (run h).objs dst = none := by
+      have := hok.2; simp [State.alive] at this; exact this
+    have hne : src ≠ dst := by intro e; rw [e, hd] at ho; cases ho
+    have inv' := fresh_obj_inv inv hd
+    have ho' : ((run h).upd dst (some ⟨none⟩)).objs src = some o := by
+      rw [upd_objs_other _ _ hne]; exact ho
+    simpa [exec] using (notify_shape hsc src inv' ho').1
+  | moveAssign dst src =>
+    simp only [Op.ok, Bool.and_eq_true] at hok
+    obtain ⟨o, ho⟩ := alive_iff.1 hok.1
+    obtain ⟨o2, ho2⟩ := alive_iff.1 hok.2
+    simp only [exec]
+    by_cases e : dst = src
+    · simp [e]
+    · have h1 := (notify_inv hsc dst inv).1
+      obtain ⟨⟨m1, hm1⟩, hobj⟩ := notify_shape hsc dst inv ho
+      have ho2' : (notifyCallbacks h.sc dst (run h)).objs src = some o2 := by
+        rw [hobj src (fun x => e x.symm)]; exact ho2
+      obtain ⟨⟨m2, hm2⟩, _⟩ := notify_shape hsc src h1 ho2'
+      simp only [e, if_false, ne_eq, not_false_eq_true, if_true, h1.noerr, Option.isSome_none,
+        Bool.false_eq_true]
+      exact ⟨m1, m2, by rw [hm2, hm1]⟩
+
+/--
+  **C16.list_empty_after_round.**  After any history in the domain, a triggering event on a live trackable
+  `t` leaves `t` without any registration (`callback_list_ == nullptr`), and a second triggering event
+  right after it delivers nothing (its trace is the empty bracket `trig t, done t`).
+-/
+theorem list_empty_after_round (h : History) (dom : h.Domain = true) (t : Nat) (o : Trackable)
+    (ho : (run h).objs t = some o) :
+    let s' := notifyCallbacks h.sc t (run h)
+    s'.err = none ∧ s'.objs t = some ⟨none⟩ ∧ entriesOf s' t = [] ∧ present t s'.trace = [] ∧
+      (notifyCallbacks h.sc t s').trace = s'.trace ++ [Ev.trig t, Ev.done t] := by
+  have inv := run_inv dom
+  have hsc := History.remOnly dom
+  obtain ⟨h1, h2⟩ := notify_inv hsc t inv
+  have h3 := h2 o ho
+  refine ⟨h1.noerr, h3, by simp [entriesOf, h3], by rw [h1.pres t, h3]; rfl, ?_⟩
+  generalize notifyCallbacks h.sc t (run h) = s' at h3
+  simp [notifyCallbacks, h3]
+
+/-- … in particular for the operations of the property: after `notify_callbacks()`, after being the target
+    of an assignment from another trackable, after being moved from (`ok`: the names are live / free) -/
+theorem list_empty_after_op (h : History) (dom : h.Domain = true) (op : Op) (hok : op.ok (run h) = true) :
+    let s' := step h.sc op (run h)
+    match op with
+    | .notify t => s'.objs t = some ⟨none⟩
+    | .assign dst src => dst ≠ src → s'.objs dst = some ⟨none⟩
+    | .moveCtor src dst => s'.objs src = some ⟨none⟩ ∧ s'.objs dst = some ⟨none⟩
+    | .moveAssign dst src => dst ≠ src → s'.objs dst = some ⟨none⟩ ∧ s'.objs src = some ⟨none⟩
+    | .del t => s'.objs t = none
+    | _ => True := by
+  have inv := run_inv dom
+  have hsc := History.remOnly dom
+  simp only [step, inv.noerr, Option.isSome_none, Bool.false_eq_true, if_false, hok, if_true]
+  cases op with
+  | new t => trivial
+  | copyCtor src dst => trivial
+  | add t d k => trivial
+  | rem t d => trivial
+  | notify t =>
+    simp only [Op.ok] at hok
+    obtain ⟨o, ho⟩ := alive_iff.1 hok
+    exact (notify_inv hsc t inv).2 o ho
+  | del t =>
+    have h1 := (notify_inv hsc t inv).1
+    simp [exec, h1.noerr]
+  | assign dst src =>
+    simp only [Op.ok, Bool.and_eq_true] at hok
+    obtain ⟨o, ho⟩ := alive_iff.1 hok.1
+    intro e
+    simp only [exec, e, ne_eq, not_false_eq_true, if_true]
+    exact (notify_inv hsc dst inv).2 o ho
+  | moveCtor src dst =>
+    simp only [Op.ok, Bool.and_eq_true, Bool.not_eq_true'] at hok
+    obtain ⟨o, ho⟩ := alive_iff.1 hok.1
+    have hd : (run h).objs dst = none := by
+      have := hok.2; simp [State.alive] at this; exact this
+    have hne : src ≠ dst := by intro e; rw [e, hd] at ho; cases ho
+    have inv' := fresh_obj_inv inv hd
+    have ho' : ((run h).upd dst (some ⟨none⟩)).objs src = some o := by
+      rw [upd_objs_other _ _ hne]; exact ho
+    refine ⟨(notify_inv hsc src inv').2 o ho', ?_⟩
+    simp only [exec]
+    rw [(notify_shape hsc src inv' ho').2 dst (fun x => hne x.symm)]
+    simp
+  | moveAssign dst src =>
+    simp only [Op.ok, Bool.and_eq_true] at hok
+    obtain ⟨o, ho⟩ := alive_iff.1 hok.1
+    obtain ⟨o2, ho2⟩ := alive_iff.1 hok.2
+    intro e
+    obtain ⟨h1, h1o⟩ := notify_inv hsc dst inv
+    have hobj := (notify_shape hsc dst inv ho).2
+    have ho2' : (notifyCallbacks h.sc dst (run h)).objs src = some o2 := by
+      rw [hobj src (fun x => e x.symm)]; exact ho2
+    simp only [exec, e, ne_eq, not_false_eq_true, if_true, h1.noerr, Option.isSome_none,
+      Bool.false_eq_true, if_false]
+    refine ⟨?_, (notify_inv hsc src h1).2 o2 ho2'⟩
+    rw [(notify_shape hsc src h1 ho2').2 dst e]
+    exact h1o o ho
+
+example :
+    let h : History := { scripts := [[.rem 5]], ops := [.new 0, .add 0 5 0, .add 0 6 0] }
+    h.Domain = true ∧ (run h).objs 0 ≠ none ∧
+      delivered (notifyCallbacks h.sc 0 (run h)).trace = [0, 1] ∧
+      delivered (notifyCallbacks h.sc 0 (notifyCallbacks h.sc 0 (run h))).trace = [0, 1] := by decide
+
 end Sigc.C16
